@@ -84,6 +84,11 @@ CHECKS = {
     technique="TLA+ frame shapes with the analyzer's endpoint view and Filter!ShouldProcess (MC_C15) evaluated by TLC, incl. a model of the filter's quick decoder that must agree on the design and disagree under the historical deviations; shapes x filter configurations replayed through analyze_pcap of the four analyzers and through worker pools, filtered run compared with the unfiltered run of the admitted sub-trace",
     text="TLC generates every framing (Ethernet, raw IP, loopback) x IPv4 header length 0..15 x IPv6 x TCP/non-TCP, each carrying a handshake, a one-segment ClientHello and an HTTP exchange in both directions, derives the endpoints the analyzer's own decoder sees and decides with the C14 filter specification which frames each of 13 configurations admits; the TCP, HTTP, TLS and unified analyzers (through their analyze_pcap front ends with with_filter) and filter-equipped worker pools must then report exactly what the unfiltered analyzer reports on the admitted sub-trace.",
     note="Trusted: TLC, Frames/Filter specs, harness pcap writer, hook H1. Only non-empty results compared; the tls pool is exercised with Ethernet/raw framing only (it routes nothing else)."),
+ "C20": dict(
+    level="model_checking", design="§5 C20",
+    technique="TLA+ definition of the unified result as Merge(config, tcp, http, tls) (Unified.tla), masking laws checked by TLC over all configurations x presence patterns; per-packet records of the unified analyzer and of the three protocol analyzers on the same traces validated by TLC (TV_C20)",
+    text="Unified.tla defines, field by field, what the unified analyzer must report given the three protocol analyzers' results for the same packet and the configuration (protocol switches, matcher switch, database present), including the all-enabled-accept condition and the constructor rule; TLC proves on the definition that disabling a protocol removes only its fields and that disabling matching only turns qualities into disabled; real traces (handshakes with timestamps under an advancing scripted clock, HTTP exchanges, one- and multi-segment hellos, IPv6, malformed, non-TCP and invalid-flag frames) are fed packet by packet to one unified analyzer per configuration (32) and to the protocol analyzers sharing only the clock, and TLC checks every packet's unified result against Merge.",
+    note="Trusted: TLC, Unified.tla, harness projection to digests, hook H1. TLS endpoints not compared (the stateless TLS analyzer reports none)."),
 }
 
 NOT_YET = {}
